@@ -12,10 +12,9 @@
    that the same definition is evaluated on the implementation's observation by Run.report and is what the
    theorems of Properties.v are about:  forall i, in_domain i = true -> clause_pos c i (model_run i) = None.
 
-   Status: clauses 1 (all_or_nothing), 4 (loop_yields) and 5 (clean_shutdown) are theorems (4 and 5 outside the guards
-   of the known findings D19 / D20, with the refutations proved next to them).  Clauses 2 (kept_alive, under
-   lapse_premise) and 3 (failure_reported) are so far evaluated on the implementation's observations only (the model
-   agrees with the implementation on every generated schedule and both satisfy them); their proofs are not done.
+   Status: all five clauses are theorems of Properties.v for every schedule of the domain: 1 (all_or_nothing), 2
+   (kept_alive, under lapse_premise) and 3 (failure_reported) unconditionally, 4 (loop_yields) and 5 (clean_shutdown)
+   outside the guards of the known findings D19 / D20, with the refutations proved next to them.
 
    Readings fixed here:
      * "its profile's services" = the services of the profile device itself (profile_device.services) whose type is
